@@ -139,7 +139,9 @@ def last_op_of(steps, client):
 
 
 def run_model_checks(v, prop, tier):
-    runs = [('design', 'MC_PoolCore_design.cfg', True), ('asbuilt', 'MC_PoolCore_asbuilt.cfg', False),
+    # quick: two messages per client (every action is still taken, see action_coverage); thorough: three, three clients, session mode
+    runs = [('design', 'MC_PoolCore_design_q.cfg' if tier == 'quick' else 'MC_PoolCore_design.cfg', True),
+            ('asbuilt', 'MC_PoolCore_asbuilt.cfg', False),
             ('dev:reset_before_rollback', 'MC_PoolCore_dev_reset_before_rollback.cfg', False),
             ('dev:timeout_keeps_connection', 'MC_PoolCore_dev_timeout_keeps_connection.cfg', False),
             ('dev:error_keeps_copy_mode', 'MC_PoolCore_dev_error_keeps_copy_mode.cfg', False),
@@ -239,7 +241,7 @@ def check(prop, tier, seed):
     scenarios = []
     scenarios += generate(v, 'tx1', 'transaction', 1, depth - 1)
     # hand-off families: the probe runs after the actor has gone; longer actor programs
-    scenarios += generate(v, 'tx1h', 'transaction', 1, depth + 1, maxmsgs=4, probes_last=True)
+    scenarios += generate(v, 'tx1h', 'transaction', 1, depth + (0 if tier == 'quick' else 1), maxmsgs=4, probes_last=True)
     scenarios += generate(v, 'sess1h', 'session', 1, depth, maxmsgs=3, probes_last=True)
     # histories with clients whose socket is reset while a message is in flight, and with the pool's reaper
     scenarios += generate(v, 'tx1v', 'transaction', 1, depth - 1, probes_last=True, extras=('vanish',))
@@ -298,6 +300,7 @@ def check(prop, tier, seed):
         sc['id'] = i + 1
         sc['seed'] = seed * 100003 + i
         sc['mode_at'] = 'user' if i % 3 == 1 else 'pool'     # where the configuration states the pool mode
+        sc['restart_epilogue'] = prop == 'C04' and i % 4 == 0
         sc.pop('_f', None)
     v.extra['scenarios_generated'] = len(scenarios)
     results = core.run_parallel(poolcore.run_scenario, chosen, workers=14)
